@@ -192,6 +192,8 @@ def c12_run(ctx):
 
 def c08_run(ctx):
     with_server_trace(core_run(["MC_relay", "MC_relayB"], ["GEN_relayA", "GEN_relayB", "GEN_relayD", "GEN_recycle", "GEN_chan3", "GEN_veto"]))(ctx)
+    if not ctx.violations:   # bindings that lapse in the same instant while the operator's callback is slow (real time)
+        ledger_rt(ctx)
     if not ctx.violations:   # the table invariants of the specification after histories of any length
         ctx.apalache_inductive("ChanInd.tla")
         ctx.tlaps_prove("ChanProof.tla")   # the same invariant, for arbitrary sets of clients, numbers and peers
@@ -210,6 +212,10 @@ def ledger_attribute(ctx, exlines, badrel, module, cfg):
     ev = _json.loads(exlines[badrel])
     if ev.get("e") == "Unserved":   # a request of the owner that got no answer in 5 s: the server stopped serving
         return {"unserved:%s" % ev.get("what")}, {"C15", "C18", "C09"}
+    if ev.get("e") == "ProbeEnd":   # data on a live channel did not arrive: the binding went without its deletion being announced
+        return {"probe"}, {"C08", "C15", "C01", "C07"}
+    if ev.get("e") == "Down":       # Server.Close under traffic left an allocation behind / unannounced
+        return {"down"}, {"C15", "C06"}
     at = ev.get("at")
     own = {"C02", "C15"} if at == "client" else {"C01", "C15"}
     if str(ev.get("id", ""))[1:3] == "z-":   # the last phase: after the Refresh(0) success was in the client's hands
@@ -218,7 +224,9 @@ def ledger_attribute(ctx, exlines, badrel, module, cfg):
 
 
 def ledger_rt(ctx):
-    ctx.trace_validate("ledger-rt", "TestLedgerRT", "TraceLedgerRT.tla", "TraceLedgerRT.cfg", 1 if ctx.tier == "quick" else 8, attribute=ledger_attribute)
+    # (C08 does not own arrivals after an announced deletion: for it only the probes and the final state are judged)
+    cfg = "TraceLedgerRTProbe.cfg" if ctx.prop == "C08" else "TraceLedgerRT.cfg"
+    ctx.trace_validate("ledger-rt", "TestLedgerRT", "TraceLedgerRT.tla", cfg, 1 if ctx.tier == "quick" else 8, attribute=ledger_attribute)
 
 
 def with_ledger_rt(run):
